@@ -45,8 +45,11 @@ type Case struct {
 	nontr  bool
 	notes  []string
 	failed bool
-	st     *stats
-	obs    map[string]int64
+	// abandoned: the sandbox ran out of a resource in the middle of the case; it says
+	// nothing about the property and is not counted as an evaluation
+	abandoned bool
+	st        *stats
+	obs       map[string]int64
 
 	cleanup []func()
 }
@@ -411,7 +414,8 @@ func (p Prop[P]) exec(c *Case, plan P) {
 		if r == nil {
 			return
 		}
-		if _, ok := r.(knownAbort); ok {
+		if ka, ok := r.(knownAbort); ok {
+			c.abandoned = ka.sig == "environment/resource-exhausted"
 			return // counted; the case is abandoned without failing
 		}
 		if c.failed || strings.Contains(fmt.Sprintf("%T", r), "rapid.") {
@@ -435,7 +439,7 @@ func (p Prop[P]) Check(t *testing.T) {
 		plan := p.Gen(rt)
 		c := p.newCase(rt, nil, plan)
 		p.exec(c, plan)
-		if !c.failed {
+		if !c.failed && !c.abandoned {
 			c.st.record(c)
 		}
 	})
@@ -445,7 +449,7 @@ func (p Prop[P]) Check(t *testing.T) {
 func (p Prop[P]) RunPlan(t testing.TB, plan P) {
 	c := p.newCase(nil, t, plan)
 	p.exec(c, plan)
-	if !c.failed {
+	if !c.failed && !c.abandoned {
 		c.st.record(c)
 	}
 }
